@@ -38,7 +38,7 @@ def floors(tier):
             "counter:tau_rejections": 100, "counter:exact_rejections": 30, "counter:rejected_lower": 100, "counter:rejected_upper": 30,
             "counter:states_range_checked": 20000, "counter:gridded_rows_checked": 1000, "counter:paths_stopped_early": 30,
             "class:limit-upper": 30, "class:limit-two": 30, "class:limit-absent": 30, "class:limit-lower": 30,
-            "class:start-on-boundary": 30, "class:events+ode-drift": 40, "counter:drift_steps_without_event": 200, "reach:_checkJump": 5000}
+            "class:start-on-boundary": 30, "class:events+ode-drift": 40, "class:grown-model": 10, "counter:drift_steps_without_event": 200, "reach:_checkJump": 5000}
 
 
 from verifkit.props.c04 import setup_shard, teardown_shard  # noqa: E402,F401  (ASan kernel injection)
@@ -47,7 +47,7 @@ from verifkit.props.c04 import setup_shard, teardown_shard  # noqa: E402,F401  (
 def run_case(rng, idx, tier, lane, ctx):
     drift = rng.random() < 0.25      # a quarter of the models also carry explicit ODE terms (deterministic drift inside tau-leap steps)
     spec = GE.gen_events(rng, limits="mixed", max_mag=3, drift=drift)
-    grow_k = S.maybe_grown(rng, spec, 0.15)     # built for the first k states, evaluated, then extended (states via state_list, processes via add_*)
+    grow_k = S.maybe_grown(rng, spec, 0.6)     # built for the first k states, evaluated, then extended (states via state_list, processes via add_*)
     theta = GE.param_values(rng, spec)
     x0 = GE.initial_state(rng, spec, hi=15, boundary_prob=0.25, huge_prob=0.15)
     ref, V = S.numeric_V(spec, theta)
